@@ -70,12 +70,17 @@ void bn_mod_inv_sim(bn_t *c, const bn_t *a, const bn_t b, int n) {
 
 	bn_null(u);
 
+	if (t != NULL) {
+		for (i = 0; i < n; i++) {
+			bn_null(t[i]);
+		}
+	}
+
 	RLC_TRY {
 		if (t == NULL) {
 			RLC_THROW(ERR_NO_MEMORY);
 		}
 		for (i = 0; i < n; i++) {
-			bn_null(t[i]);
 			bn_new(t[i]);
 		}
 		bn_new(u);
@@ -103,8 +108,10 @@ void bn_mod_inv_sim(bn_t *c, const bn_t *a, const bn_t b, int n) {
 		RLC_THROW(ERR_CAUGHT);
 	}
 	RLC_FINALLY {
-		for (i = 0; i < n; i++) {
-			bn_free(t[i]);
+		if (t != NULL) {
+			for (i = 0; i < n; i++) {
+				bn_free(t[i]);
+			}
 		}
 		bn_free(u);
 		RLC_FREE(t);
